@@ -70,7 +70,7 @@ Definition make_signers : signers :=
 Definition encode (a : atom) : atom := a.
 
 Inductive certtype := CtX509 | CtK8s | CtSsh.
-Inductive reqkind := RqPreconnect | RqLogin | RqSecondFactor | RqCert (ct : certtype).
+Inductive reqkind := RqPreconnect | RqLogin | RqSecondFactor | RqCert (ct : certtype) | RqVerifyToken.
 Record request := mkReq { r_kind : reqkind; r_body : list atom }.
 
 (* twofa.createKeyBodyRequest: multipart with the key file and the duration field *)
@@ -97,6 +97,20 @@ Definition setup_wire2 (otp : bool) (sg : signers) : list request :=
     do_cert_request (sg_ssh sg) CtSsh;
     do_cert_request (sg_ed sg) CtSsh ].
 Definition setup_wire (sg : signers) : list request := setup_wire2 false sg.
+
+(* web-browser login (lib/client/webauth, -webauthBrowser): the client never sees the password; it holds the CLI
+   token the user obtained in the browser (typed at the prompt or stored in ~/.keymaster/<prefix>.webtoken),
+   checks it with webauth.verifyToken (GET /verifyAuthToken?token=...), hands it to the browser in the
+   /sendAuthDocument URL and receives the authentication cookie on a local listener; then the same four
+   certificate requests.  The token is a bearer secret of the user, like the password. *)
+Definition verify_token : request := mkReq RqVerifyToken [ASecret].
+Definition browser_url : list atom := [AText; AText; ASecret].      (* port, user, token: the command line of the browser *)
+Definition setup_wire_web (sg : signers) : list request :=
+  [ mkReq RqPreconnect []; verify_token;
+    do_cert_request (sg_x509 sg) CtX509;
+    do_cert_request (sg_x509 sg) CtK8s;
+    do_cert_request (sg_ssh sg) CtSsh;
+    do_cert_request (sg_ed sg) CtSsh ].
 
 Definition is_priv (a : atom) : bool := match a with APriv _ => true | _ => false end.
 Definition wire_atoms (w : list request) : list atom := flat_map r_body w.
@@ -255,10 +269,10 @@ Fixpoint acheck (a : agent) (ops : list (aop * agent)) : bool :=
 (* ------------------------------------------------------------------ correspondence of one client run *)
 
 (* observed request: kind code and atom codes, as the harness classifies the recorded bytes
-   kind: 0 pre-connect, 1 login, 2 x509, 3 kubernetes, 4 ssh, 5 one-time code;  atoms: 10+k private of key k,
+   kind: 0 pre-connect, 1 login, 2 x509, 3 kubernetes, 4 ssh, 5 one-time code, 6 CLI-token verification;  atoms: 10+k private of key k,
    20+k public of key k (k: 0 X509, 1 SshMain, 2 SshEd), 1 password, 0 other text *)
 Definition kind_code (k : reqkind) : N :=
-  match k with RqPreconnect => 0 | RqLogin => 1 | RqCert CtX509 => 2 | RqCert CtK8s => 3 | RqCert CtSsh => 4 | RqSecondFactor => 5 end.
+  match k with RqPreconnect => 0 | RqLogin => 1 | RqCert CtX509 => 2 | RqCert CtK8s => 3 | RqCert CtSsh => 4 | RqSecondFactor => 5 | RqVerifyToken => 6 end.
 Definition keyid_code (k : keyid) : N := match k with KX509 => 0 | KSshMain => 1 | KSshEd => 2 end.
 Definition atom_code (a : atom) : N :=
   match a with
@@ -302,5 +316,15 @@ Definition run_matches (c : N * bool * bool * bool * bool * string * list (N * l
   let sg := make_signers in
   let sinks := install sg (pref_of_code pc) user agent_ok ed_ok k8s_ok in
   wire_eqb (map req_code (setup_wire2 otp sg)) wire &&
+  files_same (files_of sinks) files &&
+  strings_sub (labels_of sinks) labels && strings_sub labels (labels_of sinks).
+
+(* one run of setupCerts with the web-browser login, as observed: (preference code, agent present, ed25519 issued,
+   kubernetes issued, user, recorded requests of the client's own transport, files under HOME, agent labels) *)
+Definition web_run_matches (c : N * bool * bool * bool * string * list (N * list N) * list (string * N * bool) * list string) : bool :=
+  let '(pc, agent_ok, ed_ok, k8s_ok, user, wire, files, labels) := c in
+  let sg := make_signers in
+  let sinks := install sg (pref_of_code pc) user agent_ok ed_ok k8s_ok in
+  wire_eqb (map req_code (setup_wire_web sg)) wire &&
   files_same (files_of sinks) files &&
   strings_sub (labels_of sinks) labels && strings_sub labels (labels_of sinks).
